@@ -241,7 +241,7 @@ func c16(r *vlib.Run) int {
 	all = append(all, pb)
 	results, crashes := r.RunBatches("c16pure", cases, 20, 14, nil, nil)
 	for _, cr := range crashes {
-		r.Violation("colorfy-crash", map[string]interface{}{"batch_first_messages_hex": clipStrings(all[cr.Index], 5),
+		r.Violation("colorfy-crash", map[string]interface{}{"batch_first_messages_hex": clipStrings(all[cr.Any()], 5),
 			"stderr": vlib.Trunc(string(cr.Result.Stderr), 2500)})
 	}
 	for _, raw := range results {
